@@ -91,7 +91,7 @@ Fixpoint emit (n : nat) (e : expr) (ko : nat) (pd mk : bool) (l : nat) {struct n
     | EName r =>
         if inl r then let '(c, l1, _) := ipush_emit (emit n) r ko pd mk l in (c, l1, false)
         else if asu r then ([KSt], l, false) else ([KCJmp ko], l, false)
-    | EPred _ => ([KCJmp ko], l, false)
+    | EPred _ => ([KBlock [KSt; KCJmp ko]], l, false)      (* { predicate := ...; if !predicate { goto ko } } *)
     | EState _ => ([KSt], l, false)
     | EAct _ | ENil => ([], l, false)
     | ESeq es => seq_emit (emit n) es ko pd mk l false
